@@ -284,6 +284,19 @@ func (ex *Exec) modelled(st *State, ref string, fn *types.Func, recv *Val, args 
 			}
 			return one(r)
 		}
+	case "github.com/gorilla/mux.(*Router).Use":
+		// the middleware installed on a (sub)router is logged by name in the ghost usedMW(router, name), when declared
+		if g, ok := ex.eng.cs.Ghosts["usedMW"]; ok && recv != nil && sc == nil {
+			for _, a := range args {
+				if a != nil && a.Fn != nil && a.Fn.Obj != nil {
+					name := &Val{Sh: leafShape(types.Typ[types.String], "String"), T: types.Typ[types.String], S: smtString(funcRef(a.Fn.Obj))}
+					loc := ex.ghostLoc(g, []*Val{recv, name})
+					cur := ex.readLoc(st, loc)
+					ex.writeLoc(st, loc, ex.storeVal(cur, name.S, ex.boolVal("true")))
+				}
+			}
+			return none()
+		}
 	case "strings.Compare":
 		if len(args) == 2 && args[0].Sh != nil && args[0].Sh.IsLeaf() && args[0].Sh.Leaf == "String" {
 			return one(ex.intVal("(ite (str.< "+args[0].S+" "+args[1].S+") (- 1) (ite (= "+args[0].S+" "+args[1].S+") 0 1))", r0()))
@@ -933,6 +946,9 @@ func (ex *Exec) finalCheck(st *State, loc *Loc, at interface{ Pos() token.Pos })
 	}
 	key := heapKey(loc.TKey, strings.Join(loc.Path, "."))
 	if !isFinalKey(key) {
+		return
+	}
+	if init := ex.eng.cs.FinalInit[key]; init != "" && ex.contract != nil && ex.contract.Func == init {
 		return
 	}
 	ex.finalN++
